@@ -43,6 +43,8 @@ class Recorder(torch.nn.Module):
         r = self.drop(torch.ones_like(r)) * r if self.training else r       # train mode would perturb the outputs
         if self.kind == "tensor":
             return r
+        if self.kind == "tuple1":          # a container holding exactly one tensor is still a container
+            return (r,)
         # second output: either computed, or the input batch itself passed through (an output that is a view of its input)
         outs = (r, X if getattr(self, "echo", False) else r.repeat(1, 2).reshape(-1, 2, 1))
         return outs if self.kind == "tuple" else list(outs)
@@ -69,10 +71,11 @@ def one_call(n, b, nargs, bad_arg, kind, dt, cid):
     tens = [X] + (list(args) if args else [])
     d0 = [base.tdig(t) for t in tens]
     evs = [dict(ev="call", id=cid, n=n, b=b, argn=argn, kind=kind)]
-    ret = dict(ev="return", outs=[], nout=1 if kind == "tensor" else 2)
+    ret = dict(ev="return", outs=[], nout=1 if kind in ("tensor", "tuple1") else 2, container="", want_container="tensor" if kind == "tensor" else "list")
     try:
         y = predict(model, X, args=args, batch_size=b, device="cpu")
         ret["st"] = "ok"
+        ret["container"] = "tensor" if isinstance(y, torch.Tensor) else "list"
         ys = [y] if isinstance(y, torch.Tensor) else list(y)
         ret["outs"] = [dec_rows(t) if (t.ndim == 3 and tuple(t.shape[1:]) == (4, L)) else
                        [int(round(v)) for v in t.reshape(t.shape[0], -1)[:, 0].tolist()] for t in ys]
